@@ -191,6 +191,12 @@ func check(c Case, o *vf.Obs) error {
 		if runErr == nil && !factoryFailed {
 			return fmt.Errorf("Engine.Run returned nil for a cancelled endless run")
 		}
+	case "per_instance":
+		// every instance has its own finite profile: one of them finishing is no reason to stop starting the others
+		if !factoryFailed && started != total {
+			return fmt.Errorf("%d instances started, the startup profile has %d tokens; profiles are per instance (%d tokens over 10ms each), ammo is unlimited, nothing failed, nobody cancelled: an instance finishing its own profile must not cut the start short (startup lasts %v)",
+				started, total, c.RPSTokens, startupSpan)
+		}
 	case "shared_outlasts":
 		if !factoryFailed && started != total && runErr == nil {
 			// the profile is 60ms longer than the startup span; only accept a shortfall when the profile really ended first
@@ -254,6 +260,7 @@ func check(c Case, o *vf.Obs) error {
 	o.ClassIf(started < total && c.Mode == "ammo_short", "cut_short_ammo")
 	o.ClassIf(started < total && c.Mode == "shared_short", "cut_short_rps_end")
 	o.ClassIf(started == total, "all_tokens_started")
+	o.ClassIf(c.Mode == "per_instance" && startupSpan > 12*time.Millisecond && total >= 2, "per_instance_profile_shorter_than_startup")
 	o.ClassIf(c.Startup.Kind == "composite", "composite_startup")
 	if total >= 2 && len(distinctInstants) >= 2 {
 		o.NonTrivial()
